@@ -1,3 +1,882 @@
 package main
 
-func bindMain(args []string) {}
+// c08 bind: every signature of the bounded product in C08's quantifier is
+// rendered as a Starlark `def f(...)` that returns all of its parameters, every
+// call shape as a call site `def sN(S, D): return f(<positional>, <named>, *S, **D)`;
+// the sites are executed on the real interpreter (so the CALL* opcodes do the
+// flattening and setArgs the binding) for every * sequence S and ** dict D of
+// the product.  Each observation is compared with a binder written here,
+// independently, from the Python rule (specBind, association lists only); a
+// sample is printed in full for the Coq model / Spec.v and for CPython.
+
+import (
+	"flag"
+	"fmt"
+	"os"
+	"runtime"
+	"sort"
+	"strings"
+	"sync"
+
+	"go.starlark.net/starlark"
+	"go.starlark.net/syntax"
+
+	"verifharness/internal/hx"
+)
+
+// ---------------------------------------------------------------- signatures
+
+type kwParam struct {
+	Name string
+	D    int // 0 = no default
+}
+
+type sigT struct {
+	Req    []string
+	Opt    []kwParam // D != 0
+	Star   string    // "none" "bare" "args"
+	Kwonly []kwParam
+	Kwargs bool
+}
+
+const argsName, kwName = "args", "kw"
+
+func (s *sigT) ordinary() []string {
+	var out []string
+	out = append(out, s.Req...)
+	for _, o := range s.Opt {
+		out = append(out, o.Name)
+	}
+	for _, k := range s.Kwonly {
+		out = append(out, k.Name)
+	}
+	return out
+}
+
+// def text; the function returns its parameters in the order
+// positional, keyword-only, *args, **kwargs.
+func (s *sigT) def() string {
+	var ps, ret []string
+	for _, r := range s.Req {
+		ps = append(ps, r)
+		ret = append(ret, r)
+	}
+	for _, o := range s.Opt {
+		ps = append(ps, fmt.Sprintf("%s=%d", o.Name, o.D))
+		ret = append(ret, o.Name)
+	}
+	switch s.Star {
+	case "bare":
+		ps = append(ps, "*")
+	case "args":
+		ps = append(ps, "*"+argsName)
+	}
+	for _, k := range s.Kwonly {
+		if k.D != 0 {
+			ps = append(ps, fmt.Sprintf("%s=%d", k.Name, k.D))
+		} else {
+			ps = append(ps, k.Name)
+		}
+		ret = append(ret, k.Name)
+	}
+	if s.Star == "args" {
+		ret = append(ret, argsName)
+	}
+	if s.Kwargs {
+		ps = append(ps, "**"+kwName)
+		ret = append(ret, kwName)
+	}
+	if len(ret) == 0 {
+		return fmt.Sprintf("def f(%s): return ()", strings.Join(ps, ", "))
+	}
+	return fmt.Sprintf("def f(%s): return (%s,)", strings.Join(ps, ", "), strings.Join(ret, ", "))
+}
+
+func allSignatures() []*sigT {
+	posNames := []string{"a", "b", "c"}
+	kwNames := []string{"k", "m"}
+	var out []*sigT
+	for r := 0; r <= 3; r++ {
+		for o := 0; r+o <= 3; o++ {
+			for _, star := range []string{"none", "bare", "args"} {
+				for nk := 0; nk <= 2; nk++ {
+					if star == "none" && nk > 0 || star == "bare" && nk == 0 {
+						continue
+					}
+					for mask := 0; mask < 1<<nk; mask++ {
+						for _, kwargs := range []bool{false, true} {
+							s := &sigT{Star: star, Kwargs: kwargs}
+							for i := 0; i < r; i++ {
+								s.Req = append(s.Req, posNames[i])
+							}
+							for i := 0; i < o; i++ {
+								s.Opt = append(s.Opt, kwParam{posNames[r+i], 901 + i})
+							}
+							for i := 0; i < nk; i++ {
+								d := 0
+								if mask&(1<<i) != 0 {
+									d = 911 + i
+								}
+								s.Kwonly = append(s.Kwonly, kwParam{kwNames[i], d})
+							}
+							out = append(out, s)
+						}
+					}
+				}
+			}
+		}
+	}
+	return out
+}
+
+// --------------------------------------------------------------------- calls
+
+type kv struct {
+	K string
+	V int
+}
+
+type dItem struct {
+	K     string
+	IsStr bool
+	V     int
+}
+
+type siteT struct {
+	NPos  int
+	Named []kv
+	HasS  bool
+	HasD  bool
+}
+
+type starOpt struct {
+	Bad bool
+	Seq []int
+}
+
+type dstarOpt struct {
+	Bad   bool
+	Items []dItem
+}
+
+func (st *siteT) src(idx int) string {
+	var as []string
+	for i := 0; i < st.NPos; i++ {
+		as = append(as, fmt.Sprint(101+i))
+	}
+	for _, n := range st.Named {
+		as = append(as, fmt.Sprintf("%s=%d", n.K, n.V))
+	}
+	if st.HasS {
+		as = append(as, "*S")
+	}
+	if st.HasD {
+		as = append(as, "**D")
+	}
+	return fmt.Sprintf("def s%d(S, D): return f(%s)", idx, strings.Join(as, ", "))
+}
+
+// the call as one expression, valid Starlark and Python
+func callSrc(st *siteT, S *starOpt, D *dstarOpt) string {
+	var as []string
+	for i := 0; i < st.NPos; i++ {
+		as = append(as, fmt.Sprint(101+i))
+	}
+	for _, n := range st.Named {
+		as = append(as, fmt.Sprintf("%s=%d", n.K, n.V))
+	}
+	if S != nil {
+		if S.Bad {
+			as = append(as, "*7")
+		} else {
+			var el []string
+			for _, e := range S.Seq {
+				el = append(el, fmt.Sprint(e))
+			}
+			as = append(as, "*["+strings.Join(el, ", ")+"]")
+		}
+	}
+	if D != nil {
+		if D.Bad {
+			as = append(as, "**7")
+		} else {
+			var el []string
+			for _, it := range D.Items {
+				if it.IsStr {
+					el = append(el, fmt.Sprintf("%q: %d", it.K, it.V))
+				} else {
+					el = append(el, fmt.Sprintf("1: %d", it.V))
+				}
+			}
+			as = append(as, "**{"+strings.Join(el, ", ")+"}")
+		}
+	}
+	return "f(" + strings.Join(as, ", ") + ")"
+}
+
+func subsets(names []string, base int) [][]kv {
+	var out [][]kv
+	for mask := 0; mask < 1<<len(names); mask++ {
+		var l []kv
+		for i, n := range names {
+			if mask&(1<<i) != 0 {
+				l = append(l, kv{n, base + i})
+			}
+		}
+		out = append(out, l)
+	}
+	return out
+}
+
+func sitesFor(s *sigT) []*siteT {
+	uni := append(s.ordinary(), "z")
+	var out []*siteT
+	for npos := 0; npos <= 4; npos++ {
+		for _, sub := range subsets(uni, 201) {
+			orders := [][]kv{sub}
+			if len(sub) >= 2 {
+				rev := make([]kv, len(sub))
+				for i := range sub {
+					rev[len(sub)-1-i] = sub[i]
+				}
+				orders = append(orders, rev)
+			}
+			for _, named := range orders {
+				for _, hs := range []bool{false, true} {
+					for _, hd := range []bool{false, true} {
+						out = append(out, &siteT{NPos: npos, Named: named, HasS: hs, HasD: hd})
+					}
+				}
+			}
+		}
+	}
+	return out
+}
+
+func starOpts() []*starOpt {
+	return []*starOpt{{Seq: nil}, {Seq: []int{301}}, {Seq: []int{301, 302}}, {Seq: []int{301, 302, 303}}, {Bad: true}}
+}
+
+func dstarOpts(s *sigT) []*dstarOpt {
+	uni := append(s.ordinary(), "z", "y")
+	if s.Star == "args" {
+		uni = append(uni, argsName)
+	}
+	if s.Kwargs {
+		uni = append(uni, kwName)
+	}
+	var out []*dstarOpt
+	for _, sub := range subsets(uni, 401) {
+		d := &dstarOpt{}
+		for _, e := range sub {
+			d.Items = append(d.Items, dItem{e.K, true, e.V})
+		}
+		out = append(out, d)
+	}
+	// a non-string key (alone, and after a string key), a non-mapping
+	out = append(out, &dstarOpt{Items: []dItem{{"", false, 499}}})
+	out = append(out, &dstarOpt{Items: []dItem{{"z", true, 498}, {"", false, 499}}})
+	out = append(out, &dstarOpt{Bad: true})
+	return out
+}
+
+// ---------------------------------------------------- the independent binder
+
+type bnd struct {
+	Kind string // "v" "t" "d"
+	V    int
+	T    []int
+	D    []kv
+}
+
+type outcome struct {
+	Err string // "" = success
+	B   []bnd
+}
+
+func lookup(K []kv, name string) (int, bool) {
+	for _, e := range K {
+		if e.K == name {
+			return e.V, true
+		}
+	}
+	return 0, false
+}
+
+func count(K []kv, name string) int {
+	n := 0
+	for _, e := range K {
+		if e.K == name {
+			n++
+		}
+	}
+	return n
+}
+
+// specBind is Python 3's binding rule.  classes = every error class that applies
+// to the call (used to decide whether CPython's choice of class is comparable).
+func specBind(s *sigT, st *siteT, S *starOpt, D *dstarOpt) (res outcome, classes []string) {
+	// operands
+	if D != nil && D.Bad {
+		classes = append(classes, "dstar")
+	}
+	if D != nil && !D.Bad {
+		for _, it := range D.Items {
+			if !it.IsStr {
+				classes = append(classes, "key")
+				break
+			}
+		}
+	}
+	if S != nil && S.Bad {
+		classes = append(classes, "star")
+	}
+	if len(classes) > 0 {
+		return outcome{Err: classes[0]}, classes
+	}
+	var P []int
+	for i := 0; i < st.NPos; i++ {
+		P = append(P, 101+i)
+	}
+	if S != nil {
+		P = append(P, S.Seq...)
+	}
+	K := append([]kv{}, st.Named...)
+	if D != nil {
+		for _, it := range D.Items {
+			K = append(K, kv{it.K, it.V})
+		}
+	}
+	type pp struct {
+		name string
+		d    int
+	}
+	var pk []pp
+	for _, r := range s.Req {
+		pk = append(pk, pp{r, 0})
+	}
+	for _, o := range s.Opt {
+		pk = append(pk, pp{o.Name, o.D})
+	}
+	isParam := map[string]bool{}
+	for _, n := range s.ordinary() {
+		isParam[n] = true
+	}
+	tooMany := len(P) > len(pk) && s.Star != "args"
+	// the first keyword that cannot be accepted
+	firstBad := ""
+	anyMult, anyUnexp := false, false
+	for j, e := range K {
+		bad := ""
+		dup := false
+		for _, prev := range K[:j] {
+			if prev.K == e.K {
+				dup = true
+			}
+		}
+		for i, p := range pk {
+			if p.name == e.K && i < len(P) {
+				dup = true
+			}
+		}
+		if dup {
+			bad = "multiple"
+			anyMult = true
+		} else if !isParam[e.K] && !s.Kwargs {
+			bad = "unexpected"
+			anyUnexp = true
+		}
+		if bad != "" && firstBad == "" {
+			firstBad = bad
+		}
+	}
+	var vals []bnd
+	missing := false
+	for i, p := range pk {
+		if i < len(P) {
+			vals = append(vals, bnd{Kind: "v", V: P[i]})
+		} else if v, ok := lookup(K, p.name); ok {
+			vals = append(vals, bnd{Kind: "v", V: v})
+		} else if p.d != 0 {
+			vals = append(vals, bnd{Kind: "v", V: p.d})
+		} else {
+			missing = true
+		}
+	}
+	for _, k := range s.Kwonly {
+		if v, ok := lookup(K, k.Name); ok {
+			vals = append(vals, bnd{Kind: "v", V: v})
+		} else if k.D != 0 {
+			vals = append(vals, bnd{Kind: "v", V: k.D})
+		} else {
+			missing = true
+		}
+	}
+	if tooMany {
+		classes = append(classes, "toomany")
+	}
+	if anyMult {
+		classes = append(classes, "multiple")
+	}
+	if anyUnexp {
+		classes = append(classes, "unexpected")
+	}
+	if missing {
+		classes = append(classes, "missing")
+	}
+	switch {
+	case tooMany:
+		return outcome{Err: "toomany"}, classes
+	case firstBad != "":
+		return outcome{Err: firstBad}, classes
+	case missing:
+		return outcome{Err: "missing"}, classes
+	}
+	if s.Star == "args" {
+		t := []int{}
+		if len(P) > len(pk) {
+			t = P[len(pk):]
+		}
+		vals = append(vals, bnd{Kind: "t", T: t})
+	}
+	if s.Kwargs {
+		d := []kv{}
+		for _, e := range K {
+			if !isParam[e.K] {
+				d = append(d, e)
+			}
+		}
+		vals = append(vals, bnd{Kind: "d", D: d})
+	}
+	return outcome{B: vals}, nil
+}
+
+// ------------------------------------------------------------ the real thing
+
+func classify(err error) string {
+	m := err.Error()
+	switch {
+	case strings.Contains(m, "accepts no arguments"):
+		return "noargs"
+	case strings.Contains(m, "positional argument"):
+		return "toomany"
+	case strings.Contains(m, "unexpected keyword"):
+		return "unexpected"
+	case strings.Contains(m, "multiple values"):
+		return "multiple"
+	case strings.Contains(m, "missing"):
+		return "missing"
+	case strings.Contains(m, "argument after * must be iterable"):
+		return "star"
+	case strings.Contains(m, "argument after ** must be a mapping"):
+		return "dstar"
+	case strings.Contains(m, "keywords must be strings"):
+		return "key"
+	}
+	return "other:" + m
+}
+
+func observe(v starlark.Value, err error) outcome {
+	if err != nil {
+		return outcome{Err: classify(err)}
+	}
+	t, ok := v.(starlark.Tuple)
+	if !ok {
+		return outcome{Err: "other:result is " + v.Type()}
+	}
+	o := outcome{B: []bnd{}}
+	for _, e := range t {
+		switch e := e.(type) {
+		case starlark.Int:
+			n, _ := e.Int64()
+			o.B = append(o.B, bnd{Kind: "v", V: int(n)})
+		case starlark.Tuple:
+			b := bnd{Kind: "t", T: []int{}}
+			for _, x := range e {
+				n, _ := x.(starlark.Int).Int64()
+				b.T = append(b.T, int(n))
+			}
+			o.B = append(o.B, b)
+		case *starlark.Dict:
+			b := bnd{Kind: "d", D: []kv{}}
+			for _, it := range e.Items() {
+				k, _ := starlark.AsString(it[0])
+				n, _ := it[1].(starlark.Int).Int64()
+				b.D = append(b.D, kv{k, int(n)})
+			}
+			o.B = append(o.B, b)
+		default:
+			return outcome{Err: "other:element " + e.Type()}
+		}
+	}
+	return o
+}
+
+func sameOutcome(a, b outcome, coarse bool, npos int) bool {
+	ae := a.Err
+	if coarse && ae == "noargs" {
+		// setArgs' message for parameterless functions, split by what was surplus
+		if npos > 0 {
+			ae = "toomany"
+		} else {
+			ae = "unexpected"
+		}
+	}
+	if ae != b.Err || len(a.B) != len(b.B) {
+		return false
+	}
+	for i := range a.B {
+		x, y := a.B[i], b.B[i]
+		if x.Kind != y.Kind || x.V != y.V || len(x.T) != len(y.T) || len(x.D) != len(y.D) {
+			return false
+		}
+		for j := range x.T {
+			if x.T[j] != y.T[j] {
+				return false
+			}
+		}
+		for j := range x.D {
+			if x.D[j] != y.D[j] {
+				return false
+			}
+		}
+	}
+	return true
+}
+
+// ------------------------------------------------------------------- JSON out
+
+type jSig struct {
+	Req    []string `json:"req"`
+	Opt    [][2]any `json:"opt"`
+	Star   string   `json:"star"`
+	Kwonly [][2]any `json:"kwonly"`
+	Kwargs bool     `json:"kwargs"`
+}
+
+type jCall struct {
+	Pos   []int    `json:"pos"`
+	Named [][2]any `json:"named"`
+	Star  any      `json:"star"`  // nil | {"seq":[..]} | {"bad":true}
+	Dstar any      `json:"dstar"` // nil | {"items":[[key,isStr,val]..]} | {"bad":true}
+}
+
+type jCase struct {
+	Kind    string   `json:"kind"` // "case" | "mismatch"
+	Sig     jSig     `json:"sig"`
+	Call    jCall    `json:"call"`
+	Obs     any      `json:"obs"`
+	Spec    any      `json:"gospec"`
+	Classes []string `json:"classes"`
+	Def     string   `json:"def"`
+	Src     string   `json:"src"`
+	Coq     bool     `json:"coq"`
+	Py      bool     `json:"py"`
+}
+
+func jOutcome(o outcome) any {
+	if o.Err != "" {
+		return map[string]any{"err": o.Err}
+	}
+	l := []any{}
+	for _, b := range o.B {
+		switch b.Kind {
+		case "v":
+			l = append(l, map[string]any{"v": b.V})
+		case "t":
+			l = append(l, map[string]any{"t": append([]int{}, b.T...)})
+		case "d":
+			d := [][2]any{}
+			for _, e := range b.D {
+				d = append(d, [2]any{e.K, e.V})
+			}
+			l = append(l, map[string]any{"d": d})
+		}
+	}
+	return map[string]any{"ok": l}
+}
+
+func mkCase(kind string, s *sigT, st *siteT, S *starOpt, D *dstarOpt, obs, spec outcome, classes []string) *jCase {
+	c := &jCase{Kind: kind, Def: s.def(), Src: callSrc(st, S, D), Obs: jOutcome(obs), Spec: jOutcome(spec), Classes: classes}
+	c.Sig = jSig{Req: append([]string{}, s.Req...), Opt: [][2]any{}, Star: s.Star, Kwonly: [][2]any{}, Kwargs: s.Kwargs}
+	for _, o := range s.Opt {
+		c.Sig.Opt = append(c.Sig.Opt, [2]any{o.Name, o.D})
+	}
+	for _, k := range s.Kwonly {
+		if k.D != 0 {
+			c.Sig.Kwonly = append(c.Sig.Kwonly, [2]any{k.Name, k.D})
+		} else {
+			c.Sig.Kwonly = append(c.Sig.Kwonly, [2]any{k.Name, nil})
+		}
+	}
+	c.Call = jCall{Pos: []int{}, Named: [][2]any{}}
+	for i := 0; i < st.NPos; i++ {
+		c.Call.Pos = append(c.Call.Pos, 101+i)
+	}
+	for _, n := range st.Named {
+		c.Call.Named = append(c.Call.Named, [2]any{n.K, n.V})
+	}
+	if S != nil {
+		if S.Bad {
+			c.Call.Star = map[string]any{"bad": true}
+		} else {
+			c.Call.Star = map[string]any{"seq": append([]int{}, S.Seq...)}
+		}
+	}
+	if D != nil {
+		if D.Bad {
+			c.Call.Dstar = map[string]any{"bad": true}
+		} else {
+			items := [][3]any{}
+			for _, it := range D.Items {
+				items = append(items, [3]any{it.K, it.IsStr, it.V})
+			}
+			c.Call.Dstar = map[string]any{"items": items}
+		}
+	}
+	return c
+}
+
+// ----------------------------------------------------------------------- main
+
+func mix(a ...uint64) uint64 {
+	h := uint64(0x9E3779B97F4A7C15)
+	for _, x := range a {
+		h ^= x + 0x9E3779B97F4A7C15 + (h << 6) + (h >> 2)
+		h *= 0xBF58476D1CE4E5B9
+		h ^= h >> 29
+	}
+	return h
+}
+
+func mkStar(S *starOpt) starlark.Value {
+	if S.Bad {
+		return starlark.MakeInt(7)
+	}
+	t := make(starlark.Tuple, len(S.Seq))
+	for i, e := range S.Seq {
+		t[i] = starlark.MakeInt(e)
+	}
+	return t
+}
+
+func mkDict(D *dstarOpt) starlark.Value {
+	if D.Bad {
+		return starlark.MakeInt(7)
+	}
+	d := starlark.NewDict(len(D.Items))
+	for _, it := range D.Items {
+		if it.IsStr {
+			d.SetKey(starlark.String(it.K), starlark.MakeInt(it.V))
+		} else {
+			d.SetKey(starlark.MakeInt(1), starlark.MakeInt(it.V))
+		}
+	}
+	return d
+}
+
+type sigResult struct {
+	cases      []*jCase
+	total      int
+	mismatches int
+	dist       map[string]int
+	fatal      string
+}
+
+func bindMain(argv []string) {
+	fs := flag.NewFlagSet("bind", flag.ExitOnError)
+	seed := fs.Uint64("seed", 1, "seed")
+	frac := fs.Float64("frac", 1.0, "fraction of call sites executed (1 = the full product)")
+	ncoq := fs.Int("coq", 3000, "cases printed for evaluation in Coq")
+	npy := fs.Int("py", 20000, "cases printed for CPython")
+	workers := fs.Int("workers", 0, "goroutines (0 = GOMAXPROCS, at most 12)")
+	fs.Parse(argv)
+
+	sigs := allSignatures()
+	stars := starOpts()
+	// pass 1: choose the sites, count the cases
+	type job struct {
+		idx   int
+		s     *sigT
+		sites []*siteT
+		ds    []*dstarOpt
+		n     int
+	}
+	var jobs []*job
+	total := 0
+	thr := uint64(*frac * float64(1<<32))
+	for i, s := range sigs {
+		j := &job{idx: i, s: s, ds: dstarOpts(s)}
+		for k, st := range sitesFor(s) {
+			if *frac < 1 && mix(*seed, uint64(i), uint64(k))&0xffffffff >= thr {
+				continue
+			}
+			j.sites = append(j.sites, st)
+			n := 1
+			if st.HasS {
+				n *= len(stars)
+			}
+			if st.HasD {
+				n *= len(j.ds)
+			}
+			j.n += n
+		}
+		total += j.n
+		jobs = append(jobs, j)
+	}
+	pcoq := uint64(float64(*ncoq) / float64(total+1) * float64(1<<32))
+	ppy := uint64(float64(*npy) / float64(total+1) * float64(1<<32))
+	if *ncoq >= total {
+		pcoq = 1 << 32
+	}
+	if *npy >= total {
+		ppy = 1 << 32
+	}
+
+	results := make([]*sigResult, len(jobs))
+	nw := *workers
+	if nw <= 0 {
+		nw = runtime.GOMAXPROCS(0)
+		if nw > 12 {
+			nw = 12
+		}
+	}
+	ch := make(chan *job)
+	var wg sync.WaitGroup
+	for w := 0; w < nw; w++ {
+		wg.Add(1)
+		go func() {
+			defer wg.Done()
+			for j := range ch {
+				results[j.idx] = runSig(j.idx, j.s, j.sites, stars, j.ds, *seed, pcoq, ppy)
+			}
+		}()
+	}
+	// big signatures first
+	order := append([]*job{}, jobs...)
+	sort.SliceStable(order, func(a, b int) bool { return order[a].n > order[b].n })
+	for _, j := range order {
+		ch <- j
+	}
+	close(ch)
+	wg.Wait()
+
+	dist := map[string]int{}
+	nm, ntot := 0, 0
+	for _, r := range results {
+		if r.fatal != "" {
+			fmt.Fprintln(os.Stderr, "c08 bind:", r.fatal)
+			os.Exit(1)
+		}
+		for _, c := range r.cases {
+			hx.Emit(c)
+		}
+		for k, v := range r.dist {
+			dist[k] += v
+		}
+		nm += r.mismatches
+		ntot += r.total
+	}
+	hx.Emit(map[string]any{"kind": "summary", "signatures": len(sigs), "cases": ntot, "mismatches": nm, "dist": dist, "frac": *frac})
+	hx.Flush()
+}
+
+func runSig(idx int, s *sigT, sites []*siteT, stars []*starOpt, ds []*dstarOpt, seed uint64, pcoq, ppy uint64) *sigResult {
+	res := &sigResult{dist: map[string]int{}}
+	if len(sites) == 0 {
+		return res
+	}
+	var src strings.Builder
+	src.WriteString(s.def() + "\n")
+	for k, st := range sites {
+		src.WriteString(st.src(k) + "\n")
+	}
+	thread := &starlark.Thread{Name: "c08"}
+	globals, err := starlark.ExecFileOptions(&syntax.FileOptions{}, thread, "sig.star", src.String(), nil)
+	if err != nil {
+		res.fatal = fmt.Sprintf("signature %q does not execute: %v", s.def(), err)
+		return res
+	}
+	starVals := make([]starlark.Value, len(stars))
+	for i, S := range stars {
+		starVals[i] = mkStar(S)
+	}
+	dVals := make([]starlark.Value, len(ds))
+	for i, D := range ds {
+		dVals[i] = mkDict(D)
+	}
+	args := make(starlark.Tuple, 2)
+	mismatchKeys := map[string]int{}
+	for k, st := range sites {
+		fn := globals[fmt.Sprintf("s%d", k)]
+		nS, nD := 1, 1
+		if st.HasS {
+			nS = len(stars)
+		}
+		if st.HasD {
+			nD = len(ds)
+		}
+		for si := 0; si < nS; si++ {
+			for di := 0; di < nD; di++ {
+				var S *starOpt
+				var D *dstarOpt
+				args[0], args[1] = starlark.None, starlark.None
+				if st.HasS {
+					S = stars[si]
+					args[0] = starVals[si]
+				}
+				if st.HasD {
+					D = ds[di]
+					args[1] = dVals[di]
+				}
+				v, err := starlark.Call(thread, fn, args, nil)
+				obs := observe(v, err)
+				spec, classes := specBind(s, st, S, D)
+				npos := st.NPos
+				if S != nil {
+					npos += len(S.Seq)
+				}
+				ok := sameOutcome(obs, spec, true, npos)
+				res.total++
+				cls := "ok"
+				if obs.Err != "" {
+					cls = obs.Err
+					if strings.HasPrefix(cls, "other:") {
+						cls = "other"
+					}
+				}
+				res.dist[cls]++
+				h := mix(seed, uint64(idx), uint64(k), uint64(si), uint64(di))
+				// success and rarer classes are weighted up in the printed samples
+				w := uint64(1)
+				switch cls {
+				case "ok":
+					w = 40
+				case "missing", "noargs":
+					w = 12
+				case "unexpected", "toomany":
+					w = 3
+				}
+				coq := (h & 0xffffffff) < pcoq*w
+				py := ((h >> 32) & 0xffffffff) < ppy*w
+				if !ok {
+					res.mismatches++
+					key := fmt.Sprintf("%s/%s/%v/%v", obs.Err, spec.Err, st.HasS, st.HasD)
+					mismatchKeys[key]++
+					if mismatchKeys[key] <= 3 {
+						c := mkCase("mismatch", s, st, S, D, obs, spec, classes)
+						c.Coq, c.Py = true, true
+						res.cases = append(res.cases, c)
+					}
+					continue
+				}
+				if coq || py {
+					c := mkCase("case", s, st, S, D, obs, spec, classes)
+					c.Coq, c.Py = coq, py
+					res.cases = append(res.cases, c)
+				}
+			}
+		}
+	}
+	return res
+}
